@@ -58,11 +58,15 @@ Proof.
 Qed.
 
 (** ---- the exact domain of the round trip RESP -> Lua -> RESP ---- *)
-Definition int_safe (i : Z) : bool := (round_double i =? i) && (- two63 <=? i) && (i <? two63).
+(** leaves: a bulk string that lossy decoding leaves alone (every valid UTF-8 string:
+    [utf8_lossy_valid]); an integer that survives the trip through a double (every
+    |i| <= 2^53, and i64::MAX through the saturating cast) *)
+Definition bulk_ok (b : bytes) : bool := beq (utf8_lossy b) b.
+Definition int_ok (i : Z) : bool := match lua_to_resp (lua_int i) with FInt j => j =? i | _ => false end.
 Fixpoint conv_safe_in (f : frame) : bool :=
   match f with
-  | FBulk b => utf8_valid b
-  | FInt i => int_safe i
+  | FBulk b => bulk_ok b
+  | FInt i => int_ok i
   | FArray l => match l with [] => false | _ => forallb conv_safe_in l end
   | _ => false
   end.
@@ -70,32 +74,92 @@ Definition conv_safe (f : frame) : bool := match f with FNullBulk => true | _ =>
 
 Definition not_nil (v : lval) : Prop := match v with LNil => False | _ => True end.
 
-Lemma lua_int_safe i : int_safe i = true -> lua_int i = LInt i.
+Lemma bulk_ok_valid b : utf8_valid b = true -> bulk_ok b = true.
+Proof. intros H. unfold bulk_ok. rewrite utf8_lossy_valid by exact H. apply beq_refl. Qed.
+Lemma round_double_small i : Z.abs i < two53 -> round_double i = i.
+Proof. unfold round_double. intros H. apply Z.ltb_lt in H. now rewrite H. Qed.
+Lemma int_ok_small i : Z.abs i < two53 -> int_ok i = true.
 Proof.
-  unfold int_safe, lua_int, of_integral. intros H.
-  apply andb_prop in H. destruct H as [H H3]. apply andb_prop in H. destruct H as [H1 H2].
-  apply Z.eqb_eq in H1. rewrite H1, H2, H3. reflexivity.
+  intros H. unfold int_ok, lua_int, of_integral. rewrite (round_double_small _ H).
+  destruct ((- two63 <=? i) && (i <? two63)) eqn:E; [cbn [lua_to_resp]; apply Z.eqb_refl|].
+  apply andb_false_iff in E. unfold two53, two63 in *. destruct E as [E|E]; [apply Z.leb_gt in E|apply Z.ltb_ge in E]; lia.
+Qed.
+Lemma int_ok_max : int_ok i64_max = true. Proof. vm_compute. reflexivity. Qed.
+Lemma lua_int_not_nil i : not_nil (lua_int i).
+Proof. unfold lua_int, of_integral. destruct ((- two63 <=? round_double i) && (round_double i <? two63)); exact I. Qed.
+
+Lemma table_items_no_nil vs : length (table_items vs) = length vs -> Forall not_nil vs.
+Proof.
+  induction vs as [|v r IH]; intros H; [constructor|].
+  destruct v; cbn [table_items length] in H;
+    try (constructor; [exact I|apply IH; lia]).
+  discriminate.
+Qed.
+Lemma table_items_le vs : (length (table_items vs) <= length vs)%nat.
+Proof. induction vs as [|v r IH]; [apply le_n|]. destruct v; cbn [table_items length]; lia. Qed.
+Lemma conv_list_length pc l vs : conv_list pc l = Some vs -> length vs = length l.
+Proof.
+  revert vs; induction l as [|x r IH]; intros vs E; cbn [conv_list] in E; [now inversion E|].
+  destruct (resp_to_lua pc x); [|discriminate]. destruct (conv_list pc r) as [t|]; [|discriminate].
+  inversion E; subst. cbn [length]. now rewrite (IH t).
 Qed.
 
-Lemma conv_in_roundtrip pc : forall f, conv_safe_in f = true ->
-  exists v, resp_to_lua pc f = CVal v /\ lua_to_resp v = f /\ not_nil v.
+(** forward and backward, for elements of arrays (where nil is not allowed) *)
+Lemma conv_in_exact pc : forall f,
+  conv_safe_in f = true <-> exists v, resp_to_lua pc f = CVal v /\ lua_to_resp v = f /\ not_nil v.
 Proof.
-  induction f using frame_ind'; cbn [conv_safe_in]; intros Hs; try discriminate.
-  - exists (LInt z). cbn [resp_to_lua]. rewrite (lua_int_safe _ Hs). repeat split.
-  - exists (LStr b). cbn [resp_to_lua]. rewrite (utf8_lossy_valid _ Hs). repeat split.
-  - destruct l as [|x0 r0]; [discriminate|].
-    assert (G : forall l, Forall (fun f => conv_safe_in f = true ->
+  induction f using frame_ind'; cbn [conv_safe_in]; split;
+    try (intros; discriminate);
+    try (intros [v [E1 [E2 E3]]]; cbn [resp_to_lua] in E1; inversion E1; subst v;
+         try (elim E3); try discriminate; fail).
+  - (* FError *)
+    intros [v [E1 [E2 E3]]]. cbn [resp_to_lua] in E1. destruct pc; [|discriminate E1]. inversion E1; subst. elim E3.
+  - intros Hs. exists (lua_int z). cbn [resp_to_lua]. split; [reflexivity|]. split; [|apply lua_int_not_nil].
+    unfold int_ok in Hs. destruct (lua_to_resp (lua_int z)); try discriminate. apply Z.eqb_eq in Hs. now subst.
+  - intros [v [E1 [E2 _]]]. cbn [resp_to_lua] in E1. inversion E1; subst v. unfold int_ok. rewrite E2. apply Z.eqb_refl.
+  - intros Hs. exists (LStr (utf8_lossy b)). cbn [resp_to_lua]. split; [reflexivity|]. split; [|exact I].
+    unfold bulk_ok in Hs. apply beq_eq in Hs. cbn [lua_to_resp]. now rewrite Hs.
+  - intros [v [E1 [E2 _]]]. cbn [resp_to_lua] in E1. inversion E1; subst v. cbn [lua_to_resp] in E2.
+    inversion E2 as [E]. unfold bulk_ok. rewrite E. rewrite E. apply beq_refl.
+  - (* arrays, forward *)
+    intros Hs. destruct l as [|x0 r0]; [discriminate|].
+    assert (G : forall l, Forall (fun f => conv_safe_in f = true <->
                    exists v, resp_to_lua pc f = CVal v /\ lua_to_resp v = f /\ not_nil v) l ->
                 forallb conv_safe_in l = true ->
                 exists vs, conv_list pc l = Some vs /\ table_items vs = l).
     { clear. induction l as [|x r IH]; intros Hf Hs; [exists []; split; reflexivity|].
       inversion Hf as [|? ? Hx Hr]; subst. cbn [forallb] in Hs. apply andb_prop in Hs. destruct Hs as [Hsx Hsr].
-      destruct (Hx Hsx) as [v [E1 [E2 E3]]]. destruct (IH Hr Hsr) as [vs [E4 E5]].
+      destruct (proj1 Hx Hsx) as [v [E1 [E2 E3]]]. destruct (IH Hr Hsr) as [vs [E4 E5]].
       exists (v :: vs). cbn [conv_list]. rewrite E1, E4. split; [reflexivity|].
       destruct v; try (elim E3); cbn [table_items]; rewrite E2, E5; reflexivity. }
     destruct (G _ H Hs) as [vs [E1 E2]].
     exists (LTable vs). rewrite resp_to_lua_array, E1, lua_to_resp_table, E2. repeat split.
+  - (* arrays, backward *)
+    intros [v [E1 [E2 _]]]. rewrite resp_to_lua_array in E1.
+    destruct (conv_list pc l) as [vs|] eqn:Ec; [|discriminate]. inversion E1; subst v.
+    rewrite lua_to_resp_table in E2.
+    destruct (table_items vs) as [|i0 its] eqn:Et; [discriminate E2|]. injection E2 as El. subst l.
+    assert (Hn : Forall not_nil vs).
+    { apply table_items_no_nil. rewrite Et. symmetry. now apply (conv_list_length pc). }
+    clear E1.
+    assert (G : forall l vs, Forall (fun f => conv_safe_in f = true <->
+                   exists v, resp_to_lua pc f = CVal v /\ lua_to_resp v = f /\ not_nil v) l ->
+                conv_list pc l = Some vs -> Forall not_nil vs -> table_items vs = l -> forallb conv_safe_in l = true).
+    { clear. induction l as [|x r IH]; intros vs Hf Ec Hn Et; [reflexivity|].
+      inversion Hf as [|? ? Hx Hr]; subst. cbn [conv_list] in Ec.
+      destruct (resp_to_lua pc x) as [v|] eqn:Ex; [|discriminate].
+      destruct (conv_list pc r) as [t|] eqn:Er; [|discriminate]. inversion Ec; subst vs.
+      inversion Hn as [|? ? Hv Ht]; subst.
+      assert (Ei : table_items (v :: t) = lua_to_resp v :: table_items t) by (destruct v; try reflexivity; elim Hv).
+      rewrite Ei in Et. injection Et as E1 E2.
+      cbn [forallb]. rewrite (proj2 Hx) by (exists v; repeat split; assumption).
+      rewrite (IH t Hr eq_refl Ht E2). reflexivity. }
+    exact (G _ _ H Ec Hn Et).
 Qed.
+
+Lemma conv_in_roundtrip pc f : conv_safe_in f = true ->
+  exists v, resp_to_lua pc f = CVal v /\ lua_to_resp v = f /\ not_nil v.
+Proof. apply conv_in_exact. Qed.
 
 Theorem conv_roundtrip pc f : conv_safe f = true ->
   exists v, resp_to_lua pc f = CVal v /\ lua_to_resp v = f.
@@ -103,6 +167,19 @@ Proof.
   destruct f; cbn [conv_safe]; intros Hs;
     try (destruct (conv_in_roundtrip pc _ Hs) as [v [E1 [E2 _]]]; exists v; split; assumption).
   exists LNil. split; reflexivity.
+Qed.
+
+(** the domain is exact: outside [conv_safe] the reply does not come back unchanged *)
+Theorem conv_exact pc f :
+  conv_safe f = true <-> exists v, resp_to_lua pc f = CVal v /\ lua_to_resp v = f.
+Proof.
+  split; [apply conv_roundtrip|].
+  intros [v [E1 E2]]. destruct f; cbn [conv_safe]; try reflexivity;
+    try (apply (conv_in_exact pc); exists v; repeat split; try assumption;
+         cbn [resp_to_lua] in E1; try (destruct pc); inversion E1; subst v; try exact I; try discriminate; fail).
+  - apply (conv_in_exact pc). exists v. repeat split; try assumption. cbn [resp_to_lua] in E1. inversion E1. apply lua_int_not_nil.
+  - apply (conv_in_exact pc). exists v. repeat split; try assumption. rewrite resp_to_lua_array in E1.
+    destruct (conv_list pc l); inversion E1. exact I.
 Qed.
 
 (** pcall never aborts *)
